@@ -4294,6 +4294,7 @@ def _efc_contact_update(cone_type: types.ConeType, flg_adhesion: bool):
 
     ref = solref_in[conid]
     pos_aref = pos
+    margin = includemargin
 
     if wp.static(IS_ELLIPTIC):
       if dimid > 0:
@@ -4313,6 +4314,7 @@ def _efc_contact_update(cone_type: types.ConeType, flg_adhesion: bool):
           invweight *= fri
 
         pos_aref = 0.0
+        margin = 0.0  # MuJoCo: efc_pos = efc_margin = 0 on the friction rows of an elliptic cone
     else:
       if condim > 1:
         friction = friction_in[conid]
@@ -4337,7 +4339,7 @@ def _efc_contact_update(cone_type: types.ConeType, flg_adhesion: bool):
       invweight,
       ref,
       solimp_in[conid],
-      includemargin,
+      margin,
       Jqvel,
       0.0,
       efc_type,
@@ -4725,6 +4727,7 @@ def _efc_contact_update_flex(cone_type: types.ConeType, flg_adhesion: bool = Fal
 
     ref = solref_in[conid]
     pos_aref = pos
+    margin = includemargin
 
     if wp.static(IS_ELLIPTIC):
       if dimid > 0:
@@ -4744,6 +4747,7 @@ def _efc_contact_update_flex(cone_type: types.ConeType, flg_adhesion: bool = Fal
           invweight *= fri
 
         pos_aref = 0.0
+        margin = 0.0  # MuJoCo: efc_pos = efc_margin = 0 on the friction rows of an elliptic cone
     else:
       if condim > 1:
         friction = friction_in[conid]
@@ -4768,7 +4772,7 @@ def _efc_contact_update_flex(cone_type: types.ConeType, flg_adhesion: bool = Fal
       invweight,
       ref,
       solimp_in[conid],
-      includemargin,
+      margin,
       Jqvel,
       0.0,
       efc_type,
